@@ -250,9 +250,9 @@ Theorem C10_code_tie :
   /\ (forall p, steps_of_save (cs_save_df gen_shape) BTable p = write BTable p 0)
   /\ p_hsave_removes_first gen_sites = false
   /\ reap_prims gen_prog gen_dispatch FHarvester None false
-     = [PFallible 7; PFallible 1; PFallible 2; PFallible 3; PFallible 4; PFallible 5; PFallible 6; PDelete]
+     = [PFallible 7; PFallible 2; PFallible 1; PFallible 2; PFallible 3; PFallible 4; PFallible 5; PFallible 6; PDelete]
   /\ reap_prims gen_prog gen_dispatch FSampler None false
-     = [PFallible 7; PFallible 1; PFallible 2; PFallible 3; PFallible 4; PFallible 5; PFallible 6; PDelete].
+     = [PFallible 7; PFallible 2; PFallible 1; PFallible 2; PFallible 3; PFallible 4; PFallible 5; PFallible 6; PDelete].
 Proof.
   split; [exact bridge_shape|]. split; [exact bridge_write|]. split; [exact bridge_sow_combos|].
   split; [exact bridge_sow_cases|]. split; [exact bridge_writers|]. split; [exact (proj1 bridge_grow)|].
